@@ -107,6 +107,13 @@ def inputs():
     add("3xx:302-cl", resp(status=b"HTTP/1.1 302 Found", headers=LOC, framing=(b"Content-Length: 5",), body=b"moved"))
     add("3xx:301-chunked", resp(status=b"HTTP/1.1 301 Moved", headers=LOC, framing=TE, body=chunked([b"mo", b"ved"])))
     add("3xx:307-close", resp(status=b"HTTP/1.1 307 Temporary Redirect", headers=LOC, body=b"moved"))
+    # an interim response followed by a final response the reader must refuse
+    I100 = resp(status=b"HTTP/1.1 100 Continue", headers=())
+    add("interim+bad-status", I100 + resp(status=b"HTTP/1.1 2x0 OK", framing=(b"Content-Length: 2",), body=b"ok"))
+    add("interim+bad-cl", I100 + resp(framing=(b"Content-Length: 5x",), body=b"hello"))
+    add("interim+cl+te", I100 + resp(framing=(b"Content-Length: 5",) + TE, body=chunked([b"hello"])))
+    add("interim+truncated-head", I100 + resp(framing=(b"Content-Length: 2",), body=b"ok")[:30])
+    add("interim+short-body", I100 + resp(framing=(b"Content-Length: 9",), body=b"hello"))
     add("interim-only", resp(status=b"HTTP/1.1 100 Continue", headers=()))
     for sl in (b"HTTP/1.1 200 ", b"HTTP/1.1 200", b"HTTP/1.1 20 OK", b"HTTP/1.1 2000 OK", b"HTTP/2.0 200 OK",
                b"HTTP/1.1  200 OK", b"http/1.1 200 OK", b"HTTP/1.1 200 OK\x00", b"ICY 200 OK", b"", b"HTTP/1.1 2x0 OK",
